@@ -51,6 +51,15 @@ func main() {
 	os.Exit(r.run())
 }
 
+// repoRoot is the tree under analysis: /repo, or $VERIF_REPO (used to run a check against a
+// scratch copy that carries a seeded change while /repo itself stays untouched).
+func repoRoot() string {
+	if v := os.Getenv("VERIF_REPO"); v != "" {
+		return v
+	}
+	return "/repo"
+}
+
 func isFlagSet(name string) bool {
 	set := false
 	flag.Visit(func(f *flag.Flag) {
